@@ -52,9 +52,11 @@ func NewManager(netType string, bindAddr string, allowPorts []types.PortsRange) 
 	if len(allowPorts) > 0 {
 		for _, pair := range allowPorts {
 			if pair.Single > 0 {
-				pm.freePorts[pair.Single] = struct{}{}
+				if pair.Single <= MaxPort {
+					pm.freePorts[pair.Single] = struct{}{}
+				}
 			} else {
-				for i := pair.Start; i <= pair.End; i++ {
+				for i := max(pair.Start, MinPort); i <= min(pair.End, MaxPort); i++ {
 					pm.freePorts[i] = struct{}{}
 				}
 			}
